@@ -1190,7 +1190,7 @@ def c12(ck):
     binary = vlib.build_harness()
     thorough = ck.tier == "thorough"
     ck.add_tlc(vlib.mc("MC_Extract", "MC_Extract_safe.cfg", ck.scratch, workers=8, timeout=1800))
-    for design in ("naive", "parentonly", "mkdirfirst"):
+    for design in ("naive", "parentonly", "mkdirfirst", "nolinkcheck"):
         r = vlib.tlc("MC_Extract", f"MC_Extract_{design}.cfg", ck.scratch, workers=1, timeout=600)
         if r["ok"] or "ContainedInv is violated" not in r["out"]:
             raise ToolError(f"MC_Extract_{design}: the specification does not refute this extractor design")
